@@ -72,13 +72,24 @@ func runC07Switch(r *Run, stratum string) *Violation {
 			}
 		}
 	}
+	finish := func() *Violation {
+		r.NonTriv = true
+		for _, ss := range c.srv.Sessions {
+			if !ss.Dead {
+				c.srv.KillSession(ss, 0)
+			}
+		}
+		r.Settle()
+		return c.viol
+	}
+	call := func(ctx context.Context, ro *syncer.RedisOutput) error { return ro.SetRunId(ctx, newID) }
 	move := func(resetAfter int) (int, error) {
 		ro := syncer.NewRedisOutput(cfgOut)
 		ctx, cancel := context.WithCancel(context.Background())
 		defer cancel()
 		done := make(chan error, 1)
 		start := c.srv.Stats.Requests
-		go func() { done <- ro.SetRunId(ctx, newID) }()
+		go func() { done <- call(ctx, ro) }()
 		reset := false
 		for i := 0; i < 100000; i++ {
 			r.Settle()
@@ -105,6 +116,30 @@ func runC07Switch(r *Run, stratum string) *Violation {
 		}
 		Inconc("SetRunId did not end")
 		return 0, nil
+	}
+	// first: the source answers the reconnect with a full resync under the id the tool already follows (its backlog no
+	// longer reaches the stored position): RedisInput calls ResetRunId with that id. Until the new snapshot is replayed
+	// completely the stored position is all the target has - whatever the call writes must not be smaller or undefined
+	call = func(ctx context.Context, ro *syncer.RedisOutput) error { return ro.ResetRunId(ctx, oldID) }
+	if _, err := move(-1); err != nil && c.viol == nil {
+		c.setViolation("C07.switch_failed", "a full resync under the followed replication id fails on a healthy target", "ResetRunId(%s..) failed: %v", oldID[:6], err)
+		c.viol.Property = "C07"
+	}
+	scan(-2)
+	if c.viol != nil {
+		c.viol.Msg = "[full resync under the SAME replication id: ResetRunId(" + oldID[:6] + "..)] " + c.viol.Msg
+	}
+	if c.viol == nil {
+		if off, _, found, serr := c.nextStart(local, []string{oldID, strings.Repeat("0", 40)}); serr != nil || !found || off < good {
+			c.setViolation("C07.undefined", "a full resync under the followed replication id replaced a good position by a smaller or undefined one", "position %d was stored for id %s..; after ResetRunId with the same id the next start reads position %d (found=%v, err=%v); state: %s", good, oldID[:6], off, found, serr, describeKeyspace(c.srv))
+			c.viol.Property = "C07"
+		}
+	}
+	call = func(ctx context.Context, ro *syncer.RedisOutput) error { return ro.SetRunId(ctx, newID) }
+	c.srv.RestoreDBs(initial)
+	logPos = len(c.srv.Log)
+	if c.viol != nil {
+		return finish()
 	}
 	n, err := move(-1)
 	scan(-1)
@@ -150,12 +185,5 @@ func runC07Switch(r *Run, stratum string) *Violation {
 		}
 		r.Evals++
 	}
-	r.NonTriv = true
-	for _, ss := range c.srv.Sessions {
-		if !ss.Dead {
-			c.srv.KillSession(ss, 0)
-		}
-	}
-	r.Settle()
-	return c.viol
+	return finish()
 }
